@@ -78,7 +78,7 @@ CLAIMED = {
             "Bounded: catalogue structures <= 4 variables + 1 external variable, integer costs; incomplete = strict subset of declared names.", "4/C13", S),
     "C17": ("S", "Every constraint graph on up to 5 vertices (edge presence solver-chosen), optional ternary constraint and several insertion orders is handed to the real pseudo-tree "
                  "builder and compared with the DFS-forest definition; exhaustive over the structures in the bound.",
-            "Structural exploration (each path one graph). Bounded to n <= 5; the 'long chains up to thousands of variables' part of the property is NOT decided (only concrete chains <= 40 in thorough).", "4/C17", S),
+            "Structural exploration (each path one graph). Bounded to n <= 5; for the 'long chains up to thousands of variables' part only concrete chains of 6/40/600 (1000/2000 thorough) variables are executed as a probe, which is not a solver decision.", "4/C17", S),
     "C18": ("S", "The real Messaging/InProcessCommunicationLayer/Discovery (and a real Agent whose _run loop is executed synchronously after clean_shutdown) are driven through "
                  "every sequential history of posts/registration/next_msg/shutdown with SYMBOLIC message types: the heap comparisons fork on them and z3 decides, at every hand-over, "
                  "lowest type first and FIFO per (sender, destination) among equal types; exactly-once and late-destination delivery are checked on every history.",
